@@ -71,10 +71,21 @@ def universe(ctx):
     return uni[0], edges
 
 
+NEG = {"neglog": "LogExactlyOnce", "negcount": "StatsTotals", "negprot": "EffectOfSettings"}
+
+
 def model_check(ctx, out):
+    """The exhaustive run, then the three deliberately mis-wired compositions:
+    each must violate the invariant that speaks of what it breaks."""
     try:
         cfg = "AdGuardHome.mcq.cfg" if ctx.quick else "AdGuardHome.mct.cfg"
         out["mc"] = ctx.tlc("AdGuardHome", cfg, workers=6, timeout=1500, heap="6g")
+        out["neg"] = {}
+        for n, inv in NEG.items():
+            x = ctx.tlc("AdGuardHome", "AdGuardHome.%s.cfg" % n, workers=1, timeout=300, heap="2g", expect_violation=True)
+            if x["violated"] != inv:
+                raise vlib.Inconclusive("negative configuration %s: expected %s to be violated, got %s" % (n, inv, x["violated"]))
+            out["neg"][n] = x["violated"]
     except Exception as e:        # noqa: BLE001
         out["mc"] = e
 
@@ -120,10 +131,14 @@ def plan(uni, rng, n_hist, hist_len, first_h):
                 if stale:
                     f = rng.choice(stale)
                     cands = [i for i in fams[f] if not degrading(admin[i])]
-                else:
+                elif rng.random() < 0.5:
                     f = rng.choice(famnames)
                     cands = fams[f]
-                if rng.random() < 0.7:
+                else:
+                    # the family with the most (admin call, query) pairs still to follow up
+                    f = max(famnames, key=lambda x: (sum(left[i] for i in fams[x]), rng.random()))
+                    cands = fams[f]
+                if rng.random() < 0.8:
                     best = max(left[i] for i in cands)
                     cands = [i for i in cands if left[i] == best]
                 last = rng.choice(cands)
@@ -389,9 +404,9 @@ def run(ctx):
 
     rng = random.Random(ctx.seed * 7919 + 13)
     if ctx.quick:
-        procs, a_hists, a_len, b_hists, b_len = 3, 4, 110, 4, 90
+        procs, a_hists, a_len, b_hists, b_len = 3, 5, 120, 5, 100
     else:
-        procs, a_hists, a_len, b_hists, b_len = 4, 16, 130, 14, 120
+        procs, a_hists, a_len, b_hists, b_len = 4, 22, 130, 22, 140
     plans, covered, pairs = [], 0, 0
     hists, covered, pairs = plan(uni, rng, procs * a_hists, a_len, 1)
     for p in range(procs):
@@ -474,7 +489,7 @@ def run(ctx):
         "universe_admin_calls": len(uni["admin"]), "universe_queries": len(uni["queries"]),
         "probe_transitions": len(edges),
         "histories_with_rejected_line": nbad, "reproduced": len(confirmed), "unreproduced": flaky,
-        "binding_demo": selftest,
+        "binding_demo": selftest, "negative_configurations": bg.get("neg"),
         "exhaustive": False,
         "samples": samples[:4],
         "states": mc["distinct"], "transitions": mc["generated"],
@@ -501,8 +516,11 @@ def replay(ctx, path):
     bad = [b for b in validate(ctx, p, len(rows)) if b["h"] == rec["h"]]
     hit = bool(bad) and bad[0]["i"] == rec["i"]
     line = next((r for r in rows if r["h"] == rec["h"] and r["i"] == rec["i"]), None)
-    print(json.dumps({"history": rec["h"], "step": rec["i"], "op": rec["op"],
-                      "observed": {k: line["obs"][k] for k in ("code", "reply", "asked", "head", "tail", "stats", "err")} if line else None,
-                      "expected": bad[0]["exp"] if hit else None, "why": bad[0]["why"] if bad else [],
-                      "verdict": "DISAGREEMENT" if hit else "accepted"}, indent=1)[:6000])
+    print("history %d step %d (%d earlier histories replayed first), op %s" % (
+        rec["h"], rec["i"], len(rec["histories"]) - 1, json.dumps(rec["op"])))
+    if line:
+        print("observed: " + json.dumps({k: line["obs"][k] for k in ("code", "reply", "asked", "head", "tail", "stats", "err")})[:3000])
+    if hit:
+        print("rejected for %s; spec expected: %s" % (bad[0]["why"], json.dumps(bad[0]["exp"])[:3000]))
+    print("verdict: " + ("DISAGREEMENT" if hit else "accepted"))
     return 1 if hit else 0
